@@ -2,7 +2,7 @@
    Only property theorems here; proofs are in Proofs/LimitsP.v. *)
 From Coq Require Import ZArith QArith List.
 From Dyce Require Import Base.Sums Base.Order Base.Hist Base.QcOrd Model.Select Model.Pool Model.Equality Model.Arith
-  Model.Eval Model.Explode Proofs.LimitsP Proofs.EvalP Exec.Run.
+  Model.Eval Model.Explode Proofs.LimitsP Proofs.EvalP Exec.Run Proofs.QcInstanceP.
 Import ListNotations.
 
 (* Reading guide.  [reroll h pred k] is the literal re-roll recursion with k re-rolls left: roll h;
@@ -65,6 +65,16 @@ Print Assumptions C08_both_limits_rejected.
 Print Assumptions C08_deprecated_spelling_max_depth.
 Print Assumptions C08_deprecated_spelling_precision.
 Print Assumptions C08_deprecated_spelling_single_face.
+
+(* for exactly the function the correspondence check evaluates: the executable `vadd` satisfies the
+   hypothesis only on histograms without negative counts (on a negative count the constructor inside
+   H.map raises), which is all a well-formed input ever produces *)
+Theorem C08_explode_is_truncated_reroll_executable_instance : forall pad fuel h pred n isz infv,
+  nonneg h -> (n < fuel)%nat ->
+  explode VO pad vadd fuel h pred (Some (RInt (Z.of_nat n))) isz infv =
+  match reroll VO Vadd h pred n with Ok x => Ok (lowest VO x) | Err e => Err e end.
+Proof. exact explode_int_Qc. Qed.
+Print Assumptions C08_explode_is_truncated_reroll_executable_instance.
 
 (* K1 (known finding, not repaired): on a single-faced histogram the deprecated spelling and
    evaluation.explode differ - the full statement "H.explode equals evaluation.explode" is refuted *)
